@@ -27,6 +27,12 @@ CLAIMED = {
             "with overlap removal equals an independent reference on tie-free paths, support / coverage and threshold "
             "monotonicity (product run)",
             "4.C09"),
+    "C03": ("CAPA and MVCAPA with table savings of free reals (non-negative, sub-additive) and symbolic penalties "
+            "(MVCAPA: user penalty callables, one job per structural penalty regime): per path z3 (LRA) decides that "
+            "every cumulative score equals the explicit maximum over all admissible anomaly sets of the prefix, that "
+            "the returned anomalies re-evaluate to the final score, and (product run) that ignore_point_anomalies "
+            "drops exactly the point anomalies",
+            "4.C03"),
 }
 PENDING = {}
 TITLES = {}
